@@ -22,7 +22,7 @@ CHECKS = {
         "system is integrated for one symbolic step h by the real integrator __call__ of every shipped class (explicit, implicit via exact Picard roots "
         "of the real algebraic_system, splitting schemes on bicoloured trees, Richardson wrappers with 2..5 levels) and z3 decides for all h that the "
         "root component equals h^n/gamma(tau) within 2^-23 relative; embedded rows and the c column are checked the same way; 'warm' instances repeat the low-order trees on an integrator "
-        "object that has just stepped a different equation ending where the step starts, Richardson wrappers are also assessed on the SECOND step one wrapper object takes, '2d-layout' instances store the state of the splitting schemes as a (2, n) matrix. Bounded by tree order; "
+        "object that has just stepped a different equation ending where the step starts, Richardson wrappers are also assessed on the SECOND step one wrapper object takes, low-order conditions are asserted to 2^-40 on integrators built after float16/float32 integrators of the same scheme, '2d-layout' instances store the state of the splitting schemes as a (2, n) matrix. Bounded by tree order; "
         "universal over h.", "DESIGN.md 3/C01",
         "Butcher's theorem and the local->global convergence theorem are the trusted mathematical base; RadauIIA19 orders 11..19 via simplifying assumptions B,C,D."),
     "C02": _entry("other",
@@ -49,7 +49,7 @@ CHECKS = {
         "FailedToMeetTolerances (FailedIntegration through OdeSystem, no row recorded); through OdeSystem a recorded row is exactly the last (accepted) attempt from its start time; the REAL update_timestep / implicit_aware_update_timestep decided in isolation with "
         "axiomatised pow/arctan: corr in (0.2, 2.6), redo <=> corr < 0.81, accept => scaled error <= 1, error >= 4 => redo; two consecutive real __call__s with the real controller: a step "
         "accepted attempt (after an earlier step and after rejected attempts of the same call) meets the tolerance formed from its OWN data; tolerance flow: symbolic rtol/atol set through the "
-        "constructor or the setters (before / after a first leg) reach the controller and the basis integrators of Richardson wrappers; Richardson re-entry shrinks and terminates; a wrapper around an adaptive base whose controller shortens the coarsest sub-step: every level of the extrapolation table covers the interval handed back (either sign).",
+        "constructor or the setters (before / after a first leg) reach the controller and the basis integrators of Richardson wrappers; Richardson re-entry shrinks and terminates; a wrapper around an adaptive base whose controller shortens the coarsest sub-step: every level of the extrapolation table covers the interval handed back (either sign); the controller of Richardson wrappers rejects a non-finite error estimate.",
         "DESIGN.md 3/C05", "First sentence (global error proportional to tolerances) is NOT claimed: not solver-decidable with a useful bound."),
     "C06": _entry("other",
         "With dense output on, t0, tf, dt0 and a query q symbolic: sol(t_i) = y_i; the piece chosen by find_interval and find_interval_vec contains q for every q in the integrated "
@@ -61,19 +61,19 @@ CHECKS = {
         "enumerated) and the root finder replaced by the bracket_root stub: every returned event had success, lies in the bracket within sqrt(eps)*|step| of the true root, crosses in a "
         "requested direction, list sorted along the integration direction and cut after the first terminal event; (B) the REAL event section of integrate with an events oracle "
         "constrained only by (A): every recorded event was reported, lies inside its step, its state is that step's interpolant at the event time, events are in integration order "
-        "and no crossing is recorded twice - also not a crossing on the boundary between two integrate(events=...) calls; (A) also on a REAL DenseOutput holding several real Hermite pieces inside the step (kinked trajectory, preceded by the piece of an earlier step); (B) also on the way BACK over times covered before (forward leg, then integrate(t0, events=...)): every step is examined on its own interpolant.", "DESIGN.md 3/C07-C09, 6.6", "Root location itself is C14; distance to a root of the exact trajectory is outside."),
+        "and no crossing is recorded twice - also not a crossing on the boundary between two integrate(events=...) calls; (A) also on a REAL DenseOutput holding several real Hermite pieces inside the step (kinked trajectory, preceded by the piece of an earlier step); (B) also on the way BACK over times covered before (forward leg, then integrate(t0, events=...)): every step is examined on its own interpolant; end-to-end with the REAL detector and root finder: a shallow event (|slope| 1e-6) crossing within 1e-9 of the boundary between two steps is reported once, at its root.", "DESIGN.md 3/C07-C09, 6.6", "Root location itself is C14; distance to a root of the exact trajectory is outside."),
     "C08": _entry("other",
         "(A) REAL handle_events with an exactly located, strictly interior crossing in a requested direction: the event IS returned for every scale 2^-20..2^20, direction of integration and "
         "number of events unless an earlier terminal event cuts the list, also on a multi-piece real DenseOutput; (B) REAL integrate with the events oracle: every detector report that is not a repeat of the same event "
         "within eps^0.7 is recorded - true_positive filter, duplicate filter (events never merged) and interpolant pruning with dense_output=False, both directions; (C) bit-precise end of the "
-        "detector is handed the interpolant of the step under examination (three steps with dense_output=False); after a detector fault and a repeated integrate() every recorded step was examined; (C) bit-precise end of the "
+        "detector is handed the interpolant of the step under examination (three steps with dense_output=False); after a detector fault and a repeated integrate() every recorded step was examined; REAL detector, two calls, the event reads its level from the constants, which are replaced between the calls: the crossing at the new level is reported; (C) bit-precise end of the "
         "chain: the QF_FP witnesses of C14's lemma (adjacent floats bracketing a steep time event, x in +-(0.5,2), +-(4,8), +-(64,128)) are given to the REAL handle_events + brentsrootvec in both directions: the event is reported.",
         "DESIGN.md 3/C07-C09", "End-to-end completeness additionally needs the root-finder guarantee of C14 (known finding c14.absolute_residual_success)."),
     "C09": _entry("other",
         "(A) REAL handle_events with >= 2 events, at least one terminal: only events up to the first terminal one along the direction of integration are returned, the list ends at "
         "the EARLIEST located terminal crossing; (B) REAL integrate with the events oracle and mixes of terminal/non-terminal events, both directions, finite and infinite tf: last time = terminal root, nothing beyond, strictly "
         "monotone rows, last reported event is the terminal one, no detector call afterwards, status terminated-by-event = success, callbacks once per outer step; dense output one "
-        "piece per recorded step, contiguous from t0 to the root with end slopes = f at recorded states; a following integrate() continues monotonically to tf; tf = +inf and tf = -inf; detector-fault histories (the event search raises, integrate() is called again: the terminal event is still honoured).",
+        "piece per recorded step, contiguous from t0 to the root with end slopes = f at recorded states; a following integrate() continues monotonically to tf, and a following integrate(events=...) records every detected crossing once and stops again at the next terminal one; tf = +inf and tf = -inf; detector-fault histories (the event search raises, integrate() is called again: the terminal event is still honoured).",
         "DESIGN.md 3/C07-C09"),
     "C10": _entry("other",
         "Hamiltonian uninterpreted: the real ExplicitSymplecticIntegrator.__call__ on dual numbers with a right-hand side of arbitrary separable Hamiltonian structure: whole-step "
@@ -91,7 +91,7 @@ CHECKS = {
         "kinds, 5 method families), "
         "each instance universal over t0, tf, dt0: FailedIntegration with the injected cause (KeyboardInterrupt as itself), status, recorded rows = prefix of the fault-free twin run, "
         "dense output one piece per recorded step, resume reaches tf with the prefix intact, every piece of the resumed run has end slopes f(recorded state) (all families) and equals the uninterrupted run's (fixed step), "
-        "reset() restores a pristine system; value faults (rhs returns NaN, then reset and re-run equals a fresh run) and a diverging stage solve (the call recovers by retrying or a second integrate() continues to the target); a failure while a step is re-taken up to a terminal event (the error's direct cause is the injected exception, events beyond the recorded rows are dropped, the working step is restored); a QF_FP corner for Richardson wrappers (half steps that do not land on fl(t+h)) is run on the real float64 code.",
+        "reset() restores a pristine system; value faults (rhs returns NaN, then reset and re-run equals a fresh run) and a diverging stage solve (the call recovers by retrying or a second integrate() continues to the target); a failure while a step is re-taken up to a terminal event (the error's direct cause is the injected exception, events beyond the recorded rows are dropped, the working step is restored); a KeyboardInterrupt raised by an event function inside the real handle_events; a QF_FP corner for Richardson wrappers (half steps that do not land on fl(t+h)) is run on the real float64 code.",
         "DESIGN.md 3/C12", "N = 2 (quick) / 3 + two successive faults (thorough). Event-function faults run the real handle_events with the root finder stubbed. Known finding c12.valueerror_swallowed_by_retry."),
     "C13": _entry("other",
         "All operation sequences up to the length bound over {integrate, integrate(T), set dt/tol/method, set_kick_vars, integrate with an event, faulting integrate, reset} with symbolic "
@@ -125,11 +125,11 @@ CHECKS = {
     "C19": _entry("other",
         "On symbolic trajectories (forward, backward, continued, ctrl-adaptive): every integer index in [-len-2, len+2] has sequence semantics, iteration yields each row once in order, "
         "a lookup at an arbitrary real time returns a recorded sample nearest in time (dense: (q, sol(q))), a slice spanning the run returns the run; also for runs AGAINST the "
-        "direction of the constructor's span, for non-dense runs that monitored an event function, and after a step callback looked the trajectory up by time / sliced it at every step of the run (those lookups answer from the rows recorded so far), and on a run recorded in three legs whose landing steps are interior rows; numpy integers (int64, int32, intp, uint8) are integer indices.", "DESIGN.md 3/C19"),
+        "direction of the constructor's span, for non-dense runs that monitored an event function, and after a step callback looked the trajectory up by time / sliced it at every step of the run (those lookups answer from the rows recorded so far), on a run recorded in three legs whose landing steps are interior rows, and on a dense run stopped by a terminal event; numpy integers (int64, int32, intp, uint8) are integer indices.", "DESIGN.md 3/C19"),
     "C20": _entry("other",
         "Independent counters inside the user rhs / Jacobian: on every feasible path of explicit, FSAL+rejection, splitting, implicit (user Jacobian and real finite-difference "
         "JacobianWrapper) runs nfev equals the completed user calls at every callback and at the end, also after faults and reset; callbacks in the given order, after the new row "
-        "is visible, once per recorded step; a dt assigned by a callback is the magnitude of the next attempted step - also the first step of a continuation call after a short call (target nearer than the working step); a callback that removes itself from the caller's list during the run does not disturb the invocations of the call; two systems built on ONE rhs callable and used alternately each count only their own calls / Jacobian requests; with events (oracle): callbacks once per outer step that recorded rows, each sees new rows, the last sees the final row.", "DESIGN.md 3/C20"),
+        "is visible, once per recorded step; a dt assigned by a callback is the magnitude of the next attempted step - also the first step of a continuation call after a short call (target nearer than the working step); a callback that removes itself from the caller's list during the run does not disturb the invocations of the call; njev is unchanged by unhook_jacobian_call; two systems built on ONE rhs callable and used alternately each count only their own calls / Jacobian requests; with events (oracle): callbacks once per outer step that recorded rows, each sees new rows, the last sees the final row.", "DESIGN.md 3/C20"),
 }
 
 NOT_APPLICABLE = [
